@@ -26,7 +26,7 @@ LEVEL = 'exploration'
 TIERS = {
     'quick': {'runs': 9600, 'block': 200, 'run_timeout': 120,
               'wall_cap': 900, 'det_sample': 4},
-    'thorough': {'runs': 160000, 'block': 1000, 'run_timeout': 120,
+    'thorough': {'runs': 80000, 'block': 1000, 'run_timeout': 120,
                  'wall_cap': 7200, 'det_sample': 8},
 }
 RULE = ('history = initial write + 1..6 appends (seeded frames incl. empty '
